@@ -216,6 +216,17 @@ def evaluate(d):
                 reloaded = True
                 for what, how, detail in compare(d, read(b, fl._m(f))):
                     res.append(("reloaded", what, how, detail))
+                # second generation: the reloaded set is saved and loaded once more
+                t2 = fl.render(b)
+                p2 = lab.sl_parser.Parser()
+                if t2[0] != "ret" or lab.parse(t2[1].encode("utf-8"), parser=p2).verdict() is not True:
+                    res.append(("reloaded-twice", "script", "does-not-parse",
+                                repr(t2)[:200] + " " + repr(getattr(p2, "error", None))))
+                else:
+                    c2 = fl.FiltersSet("r2", *pre)
+                    if fl.call(c2.from_parser_result, p2)[0] == "ret":
+                        for what, how, detail in compare(d, read(c2, fl._m(f))):
+                            res.append(("reloaded-twice", what, how, detail))
     return True, res, reloaded
 
 
